@@ -18,12 +18,19 @@ ASSUME = [
     "repr(C) structs and of dyn vtables is trusted",
     "the global allocator returns blocks aligned as requested (observed: base % align = 0 in every case)",
     "the harness runs on a 64-bit target; 16/32-bit widths are covered by the theorems only",
-    "'freed exactly once along every history' is the history model's invariant (C01/C05 part of M1); here each case is one constructor + one release path",
+    "'freed exactly once with the request layout along every history' is Props/C05Hist.lean over the history model M1 (LenInv, LayInv, LogInv), tied by the history pass of this check",
 ]
 
 
 def run(ctx):
-    layout_corr.run_property(ctx, "C05", MODULE, ASSUME)
+    layout_corr.run_property(ctx, "C05", MODULE, ASSUME,
+                             extra_modules=["TriompheModel.Props.C05Hist", "TriompheModel.Proofs.HistLen"])
+    # history clause: every dealloc event carries the layout of the block's alloc event, along
+    # histories over every handle kind / conversion path (theorem C05_dealloc_layout_invariant);
+    # the correspondence compares allocator events of the real crate with the model's
+    from vlib import histcheck
+    histcheck.run(ctx, MODULE, dict(create=22, iter=10, conv=22, drop=16, clone=10, intoThin=5, tryUnwrap=4, intoInner=3, cb=6),
+                  ["C05"], lean=False, cov_key="history_pass", n_quick=150)
 
 
 def replay(ctx, path):
